@@ -38,21 +38,20 @@ func iteratorEndsWithSentinel(p *Prog, r *Report, rule string) bool {
 		return false
 	}
 	info := fi.Pkg.TypesInfo
-	var lit *ast.FuncLit
-	walkNoLit(fi.Decl.Body, func(x ast.Node) bool {
-		if rs, ok := x.(*ast.ReturnStmt); ok && len(rs.Results) == 1 {
-			if l, ok := ast.Unparen(rs.Results[0]).(*ast.FuncLit); ok {
-				lit = l
-			}
+	// the iterator: a literal, or a method value / function of the module
+	itFI, lit := p.returnedFunc(fi)
+	var yield types.Object
+	if itFI != nil {
+		po := paramObjs(itFI)
+		if len(po) >= 1 {
+			yield = po[0]
 		}
-		return true
-	})
-	if lit == nil || len(lit.Type.Params.List) != 1 || len(lit.Type.Params.List[0].Names) != 1 {
-		r.Undecided(rule, kDirsIterate, p.pos(fi.Decl), "iterator literal not recognised")
+	}
+	if itFI == nil || yield == nil {
+		r.Undecided(rule, kDirsIterate, p.pos(fi.Decl), "iterator function not recognised")
 		return false
 	}
-	yield := info.Defs[lit.Type.Params.List[0].Names[0]]
-	f := p.NewFlat(fi.Pkg, lit.Body)
+	f := p.FlatOf(itFI)
 	isYield := func(c *ast.CallExpr) bool { return objOf(info, c.Fun) == yield }
 	sentinel := f.Match(func(n *GNode) bool {
 		for _, c := range callsIn(n.Ast, false) {
